@@ -17,6 +17,7 @@ MODULES = [
     "contracts.c_misc",
     "contracts.c_apply",
     "contracts.c_loops",
+    "contracts.c_wrappers",
 ]
 EXPECTED_MIN_OBLIGATIONS = {}
 PROPERTY_ASSUMPTIONS = {}
